@@ -844,6 +844,27 @@ func cmdRun(prop string, args []string) int {
 			reproduced = true
 			break
 		}
+		if !reproduced && h.r.Mode != 2 {
+			// last resort: state that survives between simulated runs of one worker process (a process-wide cache, a
+			// singleton): replay the earlier runs of that worker's chunk first
+			from := (h.r.Index / uint64(tc.Chunk)) * uint64(tc.Chunk)
+			rp := fmt.Sprintf("%s/replays/%s-%d-%s.json", verifDir, prop, h.r.Seed, sanitize(c))
+			cmd := exec.Command(b.Bin, "-test.run", "^TestSim$", "-test.timeout", "0", "-test.count", "1", "-test.v")
+			cmd.Dir = b.Scratch
+			cmd.Env = append(os.Environ(), "SIM_PROP="+prop, "SIM_BASE="+strconv.FormatUint(seed, 10), "SIM_SHRINK="+strconv.FormatUint(h.r.Index, 10), "SIM_PREFIX_FROM="+strconv.FormatUint(from, 10),
+				"SIM_REPLAY_OUT="+rp, "SIM_SHRINK_CLASS="+c, "SIM_MODE=1", "SIM_TIER="+tier, "SIM_SCRATCH="+b.Scratch, "SIM_SITEHASH="+b.SiteHash)
+			out, err := cmd.CombinedOutput()
+			if err == nil && strings.Contains(string(out), "SHRINK-DONE") {
+				fmt.Print(grepLines(string(out), "SHRINK-"))
+				if ok, _ := replayOnce(b, prop, rp, c, 1); ok {
+					violLines = append(violLines, fmt.Sprintf("%s\n(history-dependent: reproduces only after the simulated runs %d..%d of this batch ran in the same process)\nVIOLATION property=%s replay=%s", clip(h.v.Msg, 1500), from, h.r.Index-1, prop, rp))
+					exit = 1
+					reproduced = true
+				} else {
+					os.Remove(rp)
+				}
+			}
+		}
 		if !reproduced {
 			noRepro = append(noRepro, c)
 		}
